@@ -67,6 +67,8 @@ def k_jobs():
              F_IND, costs=(95, 110, 160, 230), tiers=("q", "t", "t", "t"))
     j += per("c09_indicator_fn", LOGI + "IndicatorConfig::init_fn / IndicatorInstance::into_fn: the boxed closure is next", F_IND, costs=(95, 55, 60, 65), tiers=("q", "t", "t", "q"))
 
+    j.append(K("c09_comb::c09_past_over_after_steps", "per-method bulk path: Past(3) (any f64 bits) after 0..=3 single steps (every rotation phase of the ring), then a chunk of 4 symbolic values through Method::over equals next element by element on a clone, bit for bit",
+               encodes=["src/methods/past.rs: Past::{new,next} (+ over if overridden)", "src/core/method.rs: Method::over", "src/core/window.rs"], cost=30, timeout=900))
     j.append(K("c09_comb::c09_window_clone_independent", "Window<u8>::clone at symbolic capacity 1..=8, phase, contents: 1-2 pushes into the original do not show in the clone (symbolic observer index) and vice versa; each continues from its own state",
                encodes=["src/core/window.rs: Clone for Window", "src/core/window.rs: Window::push"], cost=15))
     P = ["src/methods/past.rs: Past::{new,next}", "src/methods/past.rs: Peekable for Past"]
